@@ -4,4 +4,7 @@ import re
 p = "/verif/DESIGN.md"; s = open(p).read()
 m = open("/verif/seeded/MATRIX_compact.md").read()
 s = re.sub(r"<!-- MATRIX-BEGIN -->.*?<!-- MATRIX-END -->", lambda _: "<!-- MATRIX-BEGIN -->\n" + m + "<!-- MATRIX-END -->", s, flags=re.S)
+import subprocess, sys
+t = subprocess.run([sys.executable, "/verif/tools/design_table.py", "/verif/notes/thorough_sweep_seed4.log"], capture_output=True, text=True).stdout
+s = re.sub(r"<!-- TABLE8-BEGIN -->.*?<!-- TABLE8-END -->", lambda _: "<!-- TABLE8-BEGIN -->\n" + t + "<!-- TABLE8-END -->", s, flags=re.S)
 open(p, "w").write(s)
